@@ -4,7 +4,7 @@ from vlib import Harness as H
 TB_COMMON = [
     "Kani 0.68.0 / CBMC 6.11.0 / CaDiCaL and rustc's MIR for the pinned Kani toolchain",
     "vu64 0.1.11 as compiled (its unsafe table lookup is executed symbolically, not modelled)",
-    "the frozen format specification /verif/spec/format.rs (validated natively against files written by the real crate: bin/validate_spec)",
+    "the frozen format specification /verif/spec/format.rs (validated natively against files written by the real crate: bin/validate spec)",
 ]
 ASSUME_COMMON = [
     "64-bit little-endian target (usize = 8 bytes), default cargo features of abyssiniandb (vf_vu64, htx_bitmap, rabuf_default)",
@@ -119,7 +119,7 @@ M_SETUP = M("m_setup_reachable", "vacuity twin: the constructed pre-state is sat
 
 
 # ---------------------------------------------------------------------------- layer B
-B_TB = ["layer B runs the real crate (vfile.rs, htx.rs, header code of key.rs/val.rs, open_with_params) over an in-memory byte model of rabuf::BufFile patched in with [patch.crates-io] (kani/rabuf_model: zero-fill, seek past the end extends, reads past the end return zeros, flush/sync counters, read-only latch, write-back fault); the model is validated natively against the real rabuf (bin/validate_models)",
+B_TB = ["layer B runs the real crate (vfile.rs, htx.rs, header code of key.rs/val.rs, open_with_params) over an in-memory byte model of rabuf::BufFile patched in with [patch.crates-io] (kani/rabuf_model: zero-fill, seek past the end extends, reads past the end return zeros, flush/sync counters, read-only latch, write-back fault); the model is validated natively against the real rabuf (bin/validate models)",
         "std::fs::OpenOptions::open, alloc::fmt::format and <io::Error as Debug>::fmt are stubbed in the open_with_params harnesses (no file system under CBMC)"]
 B_ASSUME = ["table images: every byte a solver variable except the three pinned header words; the occupancy bitmap agrees with the bucket heads (the part of the representation invariant that htx.rs itself maintains, shown preserved by b_bucket_*)"]
 F_SCAN = ["htx.rs VarFile::next_key_piece_offset", "vfile.rs seek_from_start / seek_back_size / read_u64_le / read_u8"]
@@ -300,7 +300,7 @@ prop("C13", [K_SIGD, K_SIGUV, K_SIGV] + B_HDRR + B_OPENR, trusted_base=TB_COMMON
      outside=["the create(true) side effect of opening a MISSING file of a partially present map"])
 prop("C12", K_HASH() + [K_VU64, K_SIGV, K_LISTS, K_ROUNDUP] + B_CODEC + B_HDRW + [B_API[0], B_API[1], B_BUCKET[8], B_OPEN_NEW, K_KSLOT, K_VSLOT],
      trusted_base=TB_COMMON + B_TB, rule="differential: current code vs. the frozen format specification /verif/spec/format.rs, symbolic inputs", bounds="keys up to 17 bytes; all u64; all field values",
-     outside=["golden directories opened through the real file system under Kani (no file system there); the frozen spec itself is validated natively against files written by the pinned build (bin/validate_spec)", "other cargo feature sets' formats"])
+     outside=["golden directories opened through the real file system under Kani (no file system there); the frozen spec itself is validated natively against files written by the pinned build (bin/validate spec)", "other cargo feature sets' formats"])
 
 prop("C14", A_ALL, trusted_base=TB_COMMON + A_TB, rule="A-harness rule: the real default method on an ideal map with a symbolic batch; post-condition through a universally quantified probe key",
      bounds="batches of 3 (2 for the string variants); u64 keys (KT = DbU64); values of 0..2 bytes",
